@@ -48,7 +48,7 @@ where
         }
         Ok(None) => {}
         Err(e) => {
-            if src.seen_doc_end() {
+            if src.seen_doc_end() && !matches!(e.without_snippet(), Error::Budget { .. }) {
                 // Trailing garbage after a proper document end marker is ignored.
             } else {
                 return Err(wrap_err(e));
